@@ -5,39 +5,71 @@ use crate::choice::Chooser;
 
 const PRELUDE: &str = "data T { A, B, C, D }\ndata List[X] { Nil, Cons(x: X, xs: List[X]) }\ncodata Fun[X, Y] { apply(x: X): Y }\ncodata Stream[X] { head: X, tail: Stream[X] }\n";
 
-/// one branching construct binding `x{i}`; `c` constructors (2..4) where relevant
-fn branch(kind: usize, i: usize, c: usize) -> String {
+pub const KINDS: usize = 6;
+pub const FOLLOWS: usize = 9;
+
+/// one branching construct binding `{out}{i}`; `c` constructors (2..4) where relevant
+fn branch(kind: usize, i: usize, c: usize, out: &str) -> String {
     let ctors = ["A", "B", "C", "D"];
     let prev = if i == 0 { "a".to_string() } else { format!("x{}", i - 1) };
     match kind {
         // sequenced conditional
-        0 => format!("let x{i}: i64 = if {prev} == {i} {{ {prev} + 1 }} else {{ {prev} - 1 }};\n  "),
+        0 => format!("let {out}{i}: i64 = if {prev} == {i} {{ {prev} + 1 }} else {{ {prev} - 1 }};\n  "),
         // sequenced match over c constructors
         1 => {
             let clauses: Vec<String> = (0..c).map(|j| format!("{} => {prev} + {j}", ctors[j])).collect();
             let rest: Vec<String> = (c..4).map(|j| format!("{} => 0", ctors[j])).collect();
-            format!("let x{i}: i64 = t.case {{ {}, {} }};\n  ", clauses.join(", "), rest.join(", ")).replace(",  }", " }")
+            format!("let {out}{i}: i64 = t.case {{ {}, {} }};\n  ", clauses.join(", "), rest.join(", ")).replace(",  }", " }")
         }
         // data-typed match (critical pairs at a multi-constructor type) followed by a use
         2 => format!(
-            "let u{i}: T = t.case {{ A => B, B => C, C => D, D => A }};\n  let x{i}: i64 = u{i}.case {{ A => {prev}, B => {prev} + 1, C => 2, D => 3 }};\n  "
+            "let u{i}: T = t.case {{ A => B, B => C, C => D, D => A }};\n  let {out}{i}: i64 = u{i}.case {{ A => {prev}, B => {prev} + 1, C => 2, D => 3 }};\n  "
         ),
         // conditional with a codata-typed result that is used afterwards
         3 => format!(
-            "let s{i}: Fun[i64, i64] = if {prev} < {i} {{ new {{ apply(v) => v + {prev} }} }} else {{ new {{ apply(v) => v - 1 }} }};\n  let x{i}: i64 = s{i}.apply[i64, i64]({prev});\n  "
+            "let s{i}: Fun[i64, i64] = if {prev} < {i} {{ new {{ apply(v) => v + {prev} }} }} else {{ new {{ apply(v) => v - 1 }} }};\n  let {out}{i}: i64 = s{i}.apply[i64, i64]({prev});\n  "
         ),
         // nested conditional in operand position
-        4 => format!("let x{i}: i64 = (if {prev} <= {i} {{ 1 }} else {{ 2 }}) + (if {prev} > 3 {{ {prev} }} else {{ 4 }});\n  "),
+        4 => format!("let {out}{i}: i64 = (if {prev} <= {i} {{ 1 }} else {{ 2 }}) + (if {prev} > 3 {{ {prev} }} else {{ 4 }});\n  "),
         // print in between (statement-like) plus conditional
-        _ => format!("let x{i}: i64 = if 0 < {prev} {{ {prev} * 2 }} else {{ 0 - {prev} }};\n  "),
+        _ => format!("let {out}{i}: i64 = if 0 < {prev} {{ {prev} * 2 }} else {{ 0 - {prev} }};\n  "),
     }
 }
 
-/// a program with k sequenced branch points of the given kind(s)
-pub fn size_family(kinds: &[usize], k: usize, ctors: usize, trailing: usize) -> String {
+/// what directly follows a branch point (the first statement of the continuation that has to be
+/// shared): binds `x{i}` from `b{i}`
+fn follow(kind: usize, i: usize) -> String {
+    match kind {
+        // a call of a top-level definition
+        1 => format!("let x{i}: i64 = g(b{i});\n  "),
+        // a call with several arguments
+        2 => format!("let x{i}: i64 = h(b{i}, a, t);\n  "),
+        // a print
+        3 => format!("print_i64(b{i});\n  let x{i}: i64 = b{i} + 1;\n  "),
+        // a constructor, then a match on it
+        4 => format!("let l{i}: List[i64] = Cons(b{i}, Nil);\n  let x{i}: i64 = l{i}.case[i64] {{ Nil => 0, Cons(hd, tl) => hd }};\n  "),
+        // a destructor invocation on a parameter
+        5 => format!("let x{i}: i64 = fu.apply[i64, i64](b{i});\n  "),
+        // a label with a jump
+        6 => format!("let x{i}: i64 = label k{i} {{ if b{i} == 0 {{ goto k{i} (1) }} else {{ b{i} }} }};\n  "),
+        // an arithmetic operation
+        7 => format!("let x{i}: i64 = b{i} * 3;\n  "),
+        // a closure creation, then its invocation
+        8 => format!("let c{i}: Fun[i64, i64] = new {{ apply(v) => v + b{i} }};\n  let x{i}: i64 = c{i}.apply[i64, i64](a);\n  "),
+        _ => unreachable!(),
+    }
+}
+
+/// a program with k sequenced branch points of the given kind(s), each directly followed by the
+/// given kind of statement (0 = nothing in between)
+pub fn size_family_with(kinds: &[usize], follows: &[usize], k: usize, ctors: usize, trailing: usize) -> String {
     let mut body = String::new();
     for i in 0..k {
-        body.push_str(&branch(kinds[i % kinds.len()], i, ctors));
+        let fo = follows[i % follows.len()];
+        body.push_str(&branch(kinds[i % kinds.len()], i, ctors, if fo == 0 { "x" } else { "b" }));
+        if fo != 0 {
+            body.push_str(&follow(fo, i));
+        }
     }
     // trailing code of adjustable size using the last variable
     let last = if k == 0 { "a".to_string() } else { format!("x{}", k - 1) };
@@ -45,7 +77,13 @@ pub fn size_family(kinds: &[usize], k: usize, ctors: usize, trailing: usize) -> 
     for j in 0..trailing {
         tail = format!("({tail} + {j})");
     }
-    format!("{PRELUDE}def f(a: i64, t: T): i64 {{\n  {body}{tail}\n}}\ndef main(a: i64): i64 {{ f(a, B) }}\n")
+    format!(
+        "{PRELUDE}def g(v: i64): i64 {{ v + 1 }}\ndef h(v: i64, w: i64, t: T): i64 {{ t.case {{ A => v, B => w, C => 0, D => 1 }} }}\ndef f(a: i64, t: T, fu: Fun[i64, i64]): i64 {{\n  {body}{tail}\n}}\ndef main(a: i64): i64 {{ f(a, B, new {{ apply(v) => v + 1 }}) }}\n"
+    )
+}
+
+pub fn size_family(kinds: &[usize], k: usize, ctors: usize, trailing: usize) -> String {
+    size_family_with(kinds, &[0], k, ctors, trailing)
 }
 
 /// k nested branch points (each branch point inside one branch of the previous one, followed by
@@ -64,10 +102,12 @@ pub fn nested_family(kind: usize, k: usize) -> String {
     format!("{PRELUDE}def f(a: i64, t: T): i64 {{\n  {}\n}}\ndef main(a: i64): i64 {{ f(a, B) }}\n", go(kind, 0, k))
 }
 
-pub fn random_size_family(c: &mut Chooser) -> (Vec<usize>, usize, usize) {
+pub fn random_size_family(c: &mut Chooser) -> (Vec<usize>, Vec<usize>, usize, usize) {
     let n = 1 + c.choose(3);
-    let kinds: Vec<usize> = (0..n).map(|_| c.choose(6)).collect();
-    (kinds, 2 + c.choose(3), c.choose(6))
+    let kinds: Vec<usize> = (0..n).map(|_| c.choose(KINDS)).collect();
+    let m = 1 + c.choose(3);
+    let follows: Vec<usize> = (0..m).map(|_| c.choose(FOLLOWS)).collect();
+    (kinds, follows, 2 + c.choose(3), c.choose(6))
 }
 
 // ------------------------------------------------------------------------------------------
